@@ -14,7 +14,7 @@ fn choose_point() -> (f64, f64) {
   if y > 1.0 || y < -1.0 {
     let q = (xq * 0.5) as u8;
     let apex = (2 * (q & 3) + 1) as f64;
-    kani::assume((xq - apex).abs() <= 2.0 - y.abs());
+    kani::assume((xq - apex).abs() <= (2.0 - y.abs()) + 4.5e-16); // inside the gore or numerically just outside its edge (meridians k*pi/2)
   }
   unsafe { G_X = x; G_Y = y; }
   (xq, y)
@@ -23,9 +23,7 @@ fn choose_point() -> (f64, f64) {
 /// overflow or underflow can fail (polar-cap offset arithmetic included), offsets in [0,1].
 fn check_ring_hash(nside: u32, caps: bool) {
   let (_x, y) = choose_point();
-  // known finding D16 (open): in the polar caps ring::hash underflows / returns wrong cells in a
-  // band along the meridians k*pi/2; the band harness covers |y| <= 1 completely, the caps harness
-  // is the witness of the finding
+  // region split only to keep each query small: band = rings that use the equatorial formula, caps = the rest
   if caps { kani::assume(y > 1.0 || y < -1.0); } else { kani::assume(y >= -1.0 && y <= 1.0); }
   let (h, dl, dh) = hash_with_dldh(nside, kani::any(), kani::any());
   assert!(h < n_hash(nside), "C11 ring hash < 12*nside^2");
@@ -42,12 +40,12 @@ fn check_ring_panic(nside: u32) {
   let _ = center_of_projected_cell(nside, h);
   assert!(false, "MUST_PANIC ring accessor accepted a cell number >= 12*nside^2");
 }
-macro_rules! rn { ($($n:literal => $a:ident, $p:ident);* $(;)?) => { $(
+macro_rules! rn { ($($n:literal => $a:ident, $p:ident, $c:ident);* $(;)?) => { $(
   #[kani::proof] #[kani::stub(crate::proj, ghost_proj)] fn $a() { check_ring_hash($n, false) }
+  #[kani::proof] #[kani::stub(crate::proj, ghost_proj)] fn $c() { check_ring_hash($n, true) }
   #[kani::proof] fn $p() { check_ring_panic($n) }
 )* } }
-rn! { 1 => ringn_hash_n1, ringn_panic_n1; 2 => ringn_hash_n2, ringn_panic_n2; 3 => ringn_hash_n3, ringn_panic_n3; 4 => ringn_hash_n4, ringn_panic_n4;
-      5 => ringn_hash_n5, ringn_panic_n5; 6 => ringn_hash_n6, ringn_panic_n6; 7 => ringn_hash_n7, ringn_panic_n7; 8 => ringn_hash_n8, ringn_panic_n8;
-      12 => ringn_hash_n12, ringn_panic_n12; 100 => ringn_hash_n100, ringn_panic_n100; 255 => ringn_hash_n255, ringn_panic_n255; 257 => ringn_hash_n257, ringn_panic_n257;
-      1000 => ringn_hash_n1000, ringn_panic_n1000; 1048577 => ringn_hash_n1048577, ringn_panic_n1048577; 536870911 => ringn_hash_n536870911, ringn_panic_n536870911; 536870912 => ringn_hash_n536870912, ringn_panic_n536870912; }
-#[kani::proof] #[kani::stub(crate::proj, ghost_proj)] fn ringn_hash_caps_n3_witness() { check_ring_hash(3, true) }
+rn! { 1 => ringn_hash_n1, ringn_panic_n1, ringn_caps_n1; 2 => ringn_hash_n2, ringn_panic_n2, ringn_caps_n2; 3 => ringn_hash_n3, ringn_panic_n3, ringn_caps_n3; 4 => ringn_hash_n4, ringn_panic_n4, ringn_caps_n4;
+      5 => ringn_hash_n5, ringn_panic_n5, ringn_caps_n5; 6 => ringn_hash_n6, ringn_panic_n6, ringn_caps_n6; 7 => ringn_hash_n7, ringn_panic_n7, ringn_caps_n7; 8 => ringn_hash_n8, ringn_panic_n8, ringn_caps_n8;
+      12 => ringn_hash_n12, ringn_panic_n12, ringn_caps_n12; 100 => ringn_hash_n100, ringn_panic_n100, ringn_caps_n100; 255 => ringn_hash_n255, ringn_panic_n255, ringn_caps_n255; 257 => ringn_hash_n257, ringn_panic_n257, ringn_caps_n257;
+      1000 => ringn_hash_n1000, ringn_panic_n1000, ringn_caps_n1000; 1048577 => ringn_hash_n1048577, ringn_panic_n1048577, ringn_caps_n1048577; 536870911 => ringn_hash_n536870911, ringn_panic_n536870911, ringn_caps_n536870911; 536870912 => ringn_hash_n536870912, ringn_panic_n536870912, ringn_caps_n536870912; }
